@@ -903,7 +903,19 @@ func queueLockClass(p *Prog) *LockClass {
 	for _, f := range []string{"items", "size", "stopped"} {
 		lc.Guarded[fieldKey{mq, f}] = true
 	}
-	lc.Guarded[fieldKey{cond, "waiting"}] = true
+	// the condition variable's own state: every field but the locker and (constructor-immutable) channel references
+	{
+		st := cond.Underlying().(*types.Struct)
+		for i := 0; i < st.NumFields(); i++ {
+			if typeIs(st.Field(i).Type(), "sync", "Locker") {
+				continue
+			}
+			if _, isChan := st.Field(i).Type().Underlying().(*types.Chan); isChan {
+				continue
+			}
+			lc.Guarded[fieldKey{cond, st.Field(i).Name()}] = true
+		}
+	}
 	lc.Guarded[fieldKey{lq, "head"}] = true
 	lc.Guarded[fieldKey{lq, "tail"}] = true
 	lc.Guarded[fieldKey{node, "next"}] = true
